@@ -1,6 +1,7 @@
 (* C02 — Validity: decisions extend the instance base and stem from an honest input. *)
 From Coq Require Import ZArith List Bool.
 From F3 Require Import Spec SpecProofs.
+From F3 Require Instance InstanceNoPanic Refine RefineNet.
 Import ListNotations.
 Open Scope Z_scope.
 
@@ -27,3 +28,14 @@ Theorem c02_conforms_reachable : forall (power : nat -> Z) (committee : list nat
     reachable power committee honest input (rev future ++ past).
 Proof. intros power committee honest input Hn. exact (conforms_reachable power committee Hn honest input). Qed.
 Print Assumptions c02_conforms_reachable.
+
+(* validity for networks of the EXECUTABLE instance model (Layer N refines Layer S, RefineNet.v): whatever an honest member
+   reports as decided is a non-empty prefix of the input chain of some honest member *)
+Theorem c02_network_validity : forall (c : Instance.config) (honest : nat -> bool) (input : nat -> Instance.chain),
+  InstanceNoPanic.committee_wf c -> Instance.c_total c <= 65535 -> (forall k, honest k = true -> input k <> []) ->
+  3 * byz_power (Refine.power c) (Refine.committee c) honest < total (Refine.power c) (Refine.committee c) ->
+  forall acts k j, RefineNet.all_ok c honest (RefineNet.net0 input) acts -> RefineNet.member c honest k ->
+    Instance.i_term (RefineNet.n_inst (RefineNet.nrun c (RefineNet.net0 input) acts) k) = Some j ->
+    Instance.j_value j <> [] /\ exists q, honest q = true /\ is_prefix (Instance.j_value j) (input q).
+Proof. exact RefineNet.network_validity. Qed.
+Print Assumptions c02_network_validity.
